@@ -12,6 +12,7 @@ package db
 // Oracle: a history checker over the acknowledgements (see vfC05World.finalCheck).
 
 import (
+	"errors"
 	"fmt"
 	"net/http"
 	"runtime"
@@ -21,11 +22,17 @@ import (
 	"sync"
 	"testing"
 
+	sgbucket "github.com/couchbase/sg-bucket"
 	"github.com/couchbase/sync_gateway/base"
 	kit "github.com/couchbase/sync_gateway/verifkit"
 	vs "github.com/couchbase/sync_gateway/verifstore"
 	"pgregory.net/rapid"
 )
+
+// vfC05SigResurrect: a write that turns a deleted document live again is stored with insert semantics
+// (WriteResurrectionWithXattrs carries no CAS); if another client's acknowledged write changed the
+// tombstone meanwhile and the document is (again) deleted at that moment, it is overwritten.
+const vfC05SigResurrect = "resurrection-write-overwrites-concurrent-tombstone-write"
 
 const vfC05MaxTries = 4 // write attempts of one instrumented operation that can carry a hook / an injected CAS failure
 
@@ -38,6 +45,7 @@ type vfC05Op struct {
 	pick   int    // which leaf a read remembers when the document is in conflict
 	win    bool   // pushed revision ids get a digest that sorts high (true) or low (false)
 	yield  int    // concurrent mode: scheduler yields before the operation
+	window int    // concurrent mode over the fault store: scheduler yields inside the read -> CAS-write window
 
 	instrumented bool
 	hooks        [][]*vfC05Op // hooks[k] runs immediately before the (k+1)-th CAS write of this operation
@@ -61,6 +69,9 @@ func (o *vfC05Op) render() string {
 	s += ")#" + strconv.Itoa(o.id)
 	if o.yield > 0 {
 		s += fmt.Sprintf("~%d", o.yield)
+	}
+	if o.window > 0 {
+		s += fmt.Sprintf("~w%d", o.window)
 	}
 	if o.instrumented && len(o.hooks) > 0 {
 		var tries []string
@@ -162,6 +173,7 @@ type vfC05Rej struct {
 	status          int
 	err             string
 	rev             string // revision id of a rejected push
+	rosmarRace      bool   // rosmar's update loop gave up on a tombstone race the gocb loop retries (see assumptions)
 }
 
 type vfC05World struct {
@@ -177,10 +189,17 @@ type vfC05World struct {
 	log      []string
 	problems []string // oracle failures noticed while other code is on the stack; raised by the caller
 	attempts map[string]int
-	retried  bool
-	depth2   bool
-	failcas  bool
-	infra    string
+	// known-finding avoidance (only when vfC05SigResurrect is listed as open)
+	avoid      bool
+	resWindow  map[int]int  // doc -> number of enclosing CAS windows that end in a resurrection write
+	delLock    sync.RWMutex // concurrent mode: deleting writes run alone
+	concurrent bool
+	excluded   int
+	rosmarRace bool
+	retried    bool
+	depth2     bool
+	failcas    bool
+	infra      string
 }
 
 func (w *vfC05World) logf(format string, args ...any) {
@@ -237,6 +256,26 @@ func (w *vfC05World) exec(o *vfC05Op, depth int) {
 	kind := o.kind
 	if kind != "read" && kind != "put" && !k.known {
 		kind = "put" // nothing read yet: the only sensible write is a create
+	}
+	if w.avoid && (kind == "del" || kind == "pushdel") {
+		if w.concurrent {
+			w.delLock.Lock()
+			defer w.delLock.Unlock()
+		} else {
+			w.mu.Lock()
+			inWindow := w.resWindow[o.doc] > 0
+			if inWindow {
+				w.excluded++
+				w.log = append(w.log, fmt.Sprintf("c%d.%s(d%d)#%d=skipped(known finding %s)", o.client, kind, o.doc, o.id, vfC05SigResurrect))
+			}
+			w.mu.Unlock()
+			if inWindow {
+				return
+			}
+		}
+	} else if w.avoid && w.concurrent && kind != "read" {
+		w.delLock.RLock()
+		defer w.delLock.RUnlock()
 	}
 	switch kind {
 	case "read":
@@ -311,7 +350,12 @@ func (w *vfC05World) outcome(o *vfC05Op, kind string, k vfC05Known, pushedRev, r
 	}
 	if err != nil {
 		status, _ := base.ErrorAsHTTPStatus(err)
-		w.rejs = append(w.rejs, vfC05Rej{op: o.id, client: o.client, doc: o.doc, kind: kind, status: status, err: err.Error(), rev: pushedRev})
+		var missing sgbucket.MissingError
+		race := errors.As(err, &missing) && strings.Contains(err.Error(), "deleteBody=true when the document is a tombstone")
+		if race {
+			w.rosmarRace = true
+		}
+		w.rejs = append(w.rejs, vfC05Rej{op: o.id, client: o.client, doc: o.doc, kind: kind, status: status, err: err.Error(), rev: pushedRev, rosmarRace: race})
 		w.log = append(w.log, fmt.Sprintf("c%d.%s(d%d,parent=%q)#%d=ERR%d", o.client, kind, o.doc, named, o.id, status))
 		return
 	}
@@ -332,31 +376,12 @@ func (w *vfC05World) plan(o *vfC05Op, depth int, rules *[]vs.Rule) {
 		return
 	}
 	op := o
-	hook := func() {
-		w.mu.Lock()
-		k := w.attempts[op.label()]
-		w.attempts[op.label()] = k + 1
-		w.mu.Unlock()
-		if k >= len(op.hooks) {
-			return
-		}
-		w.mu.Lock()
-		before := len(w.acks)
-		w.mu.Unlock()
-		for _, n := range op.hooks[k] {
-			w.exec(n, depth+1)
-		}
-		w.mu.Lock()
-		for _, a := range w.acks[before:] {
-			if a.doc == op.doc {
-				w.retried = true // a complete write of another client landed inside the window: the CAS write must fail
-			}
-		}
-		w.mu.Unlock()
+	hookFor := func(typ vs.OpType) func() {
+		return func() { w.runHook(op, depth, typ) }
 	}
 	for _, typ := range []vs.OpType{vs.OpWriteWithXattrs, vs.OpWriteTombstoneWithXattrs, vs.OpWriteResurrectionWithXattrs} {
 		for n := 1; n <= vfC05MaxTries; n++ {
-			f := vs.Fault{Hook: hook}
+			f := vs.Fault{Hook: hookFor(typ)}
 			if n <= len(o.failCas) && o.failCas[n-1] {
 				f.Action = vs.FailCas
 			}
@@ -368,6 +393,38 @@ func (w *vfC05World) plan(o *vfC05Op, depth int, rules *[]vs.Rule) {
 			w.plan(n, depth+1, rules)
 		}
 	}
+}
+
+// runHook is what happens inside op's read -> CAS-write window, immediately before its k-th CAS write
+// (of primitive type typ): the generated complete operations of other clients.
+func (w *vfC05World) runHook(op *vfC05Op, depth int, typ vs.OpType) {
+	w.mu.Lock()
+	k := w.attempts[op.label()]
+	w.attempts[op.label()] = k + 1
+	w.mu.Unlock()
+	if k >= len(op.hooks) {
+		return
+	}
+	guard := w.avoid && typ == vs.OpWriteResurrectionWithXattrs
+	w.mu.Lock()
+	before := len(w.acks)
+	if guard {
+		w.resWindow[op.doc]++
+	}
+	w.mu.Unlock()
+	for _, n := range op.hooks[k] {
+		w.exec(n, depth+1)
+	}
+	w.mu.Lock()
+	if guard {
+		w.resWindow[op.doc]--
+	}
+	for _, a := range w.acks[before:] {
+		if a.doc == op.doc {
+			w.retried = true // a complete write of another client landed inside the window: the CAS write must fail
+		}
+	}
+	w.mu.Unlock()
 }
 
 // ---------------------------------------------------------------------------------------------
@@ -445,9 +502,6 @@ func (w *vfC05World) finalCheck(ordered bool) error {
 				return fmt.Errorf("%s: revision %s acknowledged twice (sequences %d and %d)", docID, a.rev, prev.seq, a.seq)
 			}
 			revs[a.rev] = &vfC05Rev{parent: a.named, deleted: a.deleted, seq: a.seq, v: a.v}
-			if ordered && a.seq <= last {
-				return fmt.Errorf("%s: write #%d (%s) was acknowledged with sequence %d, not greater than the sequence %d of the write it superseded", docID, a.op, a.rev, a.seq, last)
-			}
 			if a.seq > last {
 				last = a.seq
 			}
@@ -491,6 +545,19 @@ func (w *vfC05World) finalCheck(ordered bool) error {
 				return fmt.Errorf("%s: write #%d (%s) has sequence %d, not greater than sequence %d of its parent %s", docID, a.op, a.rev, a.seq, p.seq, revs[a.rev].parent)
 			}
 		}
+		// in commit order every acknowledged write's sequence exceeds that of the write it superseded
+		if ordered {
+			var prev uint64
+			for _, a := range w.acks {
+				if a.doc != d {
+					continue
+				}
+				if a.seq <= prev {
+					return fmt.Errorf("%s: write #%d (%s) was acknowledged with sequence %d, not greater than the sequence %d of the write it superseded", docID, a.op, a.rev, a.seq, prev)
+				}
+				prev = a.seq
+			}
+		}
 		// rejected writers leave no trace: the history holds the acknowledged revisions and nothing else
 		for id := range doc.History {
 			if _, ok := revs[id]; !ok {
@@ -525,7 +592,7 @@ func (w *vfC05World) finalCheck(ordered bool) error {
 				return fmt.Errorf("%s: conflicts are disallowed but the acknowledged revisions do not form one chain (chain from the root has %d of %d)", docID, n, nAcks)
 			}
 			for _, r := range w.rejs {
-				if r.doc == d && r.status != http.StatusConflict {
+				if r.doc == d && r.status != http.StatusConflict && !r.rosmarRace {
 					return fmt.Errorf("%s: unacknowledged write #%d was answered %d (%s), not a conflict error", docID, r.op, r.status, r.err)
 				}
 			}
@@ -628,6 +695,18 @@ func vfC05Open(t *testing.T, allow bool, wrap bool) (*vfEnv, *vs.Bucket, error) 
 	return env, w, err
 }
 
+func vfC05NewWorld(env *vfEnv, w *vs.Bucket, allow bool, clients, docs int) *vfC05World {
+	world := &vfC05World{env: env, w: w, allow: allow, attempts: map[string]int{}, resWindow: map[int]int{}}
+	for d := 0; d < docs; d++ {
+		world.docs = append(world.docs, fmt.Sprintf("doc%d", d))
+	}
+	world.know = make([][]vfC05Known, clients)
+	for c := range world.know {
+		world.know[c] = make([]vfC05Known, docs)
+	}
+	return world
+}
+
 func vfC05Classes(w *vfC05World, extra ...string) (classes []string, nontrivial bool) {
 	classes = append(classes, extra...)
 	rejected := len(w.rejs) > 0
@@ -642,6 +721,9 @@ func vfC05Classes(w *vfC05World, extra ...string) (classes []string, nontrivial 
 	}
 	if w.failcas {
 		classes = append(classes, "injected-cas-failure")
+	}
+	if w.rosmarRace {
+		classes = append(classes, "rosmar-tombstone-race-not-retried")
 	}
 	for _, a := range w.acks {
 		if a.deleted {
@@ -684,14 +766,8 @@ func TestVerif_C05_Interleave(t *testing.T) {
 			rt.Skip("no database")
 		}
 		defer env.Close()
-		world := &vfC05World{env: env, w: w, allow: g.allow, attempts: map[string]int{}}
-		for d := 0; d < g.docs; d++ {
-			world.docs = append(world.docs, fmt.Sprintf("doc%d", d))
-		}
-		world.know = make([][]vfC05Known, g.clients)
-		for c := range world.know {
-			world.know[c] = make([]vfC05Known, g.docs)
-		}
+		world := vfC05NewWorld(env, w, g.allow, g.clients, g.docs)
+		world.avoid = kit.Known("C05", vfC05SigResurrect)
 		fail := func(format string, args ...any) {
 			kit.Violation(rt, "C05", "Interleave", render, "%s\nexecution: %s", fmt.Sprintf(format, args...), world.history())
 		}
@@ -734,6 +810,9 @@ func TestVerif_C05_Interleave(t *testing.T) {
 			mode = "mode=conflicts-allowed"
 		}
 		classes, nontrivial := vfC05Classes(world, mode, fmt.Sprintf("clients=%d", g.clients))
+		for i := 0; i < world.excluded; i++ {
+			rec.Excluded(vfC05SigResurrect)
+		}
 		rec.Case(render, nontrivial, classes...)
 	})
 }
@@ -766,6 +845,9 @@ func TestVerif_C05_Concurrent(t *testing.T) {
 				o.win = rapid.Bool().Draw(rt, "hi")
 				o.yield = rapid.IntRange(0, 3).Draw(rt, "yield")
 				o.instrumented = wrap && o.kind != "read" // marked context: write attempts show up in the trace
+				if o.instrumented {
+					o.window = rapid.IntRange(0, 40).Draw(rt, "windowYields")
+				}
 				if allow && o.kind == "read" {
 					o.pick = rapid.IntRange(0, 2).Draw(rt, "leaf")
 				}
@@ -783,14 +865,9 @@ func TestVerif_C05_Concurrent(t *testing.T) {
 			rt.Skip("no database")
 		}
 		defer env.Close()
-		world := &vfC05World{env: env, w: w, allow: allow, attempts: map[string]int{}}
-		for d := 0; d < nDocs; d++ {
-			world.docs = append(world.docs, fmt.Sprintf("doc%d", d))
-		}
-		world.know = make([][]vfC05Known, nClients)
-		for c := range world.know {
-			world.know[c] = make([]vfC05Known, nDocs)
-		}
+		world := vfC05NewWorld(env, w, allow, nClients, nDocs)
+		world.avoid = kit.Known("C05", vfC05SigResurrect)
+		world.concurrent = true
 		for d := range world.docs {
 			world.exec(&vfC05Op{id: 1000 + d, client: 0, doc: d, kind: "put"}, 0)
 			for c := 1; c < nClients; c++ {
@@ -798,7 +875,27 @@ func TestVerif_C05_Concurrent(t *testing.T) {
 			}
 		}
 		if wrap {
-			w.Arm(nil)
+			// widen every write's read -> CAS-write window by a generated number of scheduler yields
+			var rules []vs.Rule
+			for _, prog := range progs {
+				for _, o := range prog {
+					if !o.instrumented || o.window == 0 {
+						continue
+					}
+					n := o.window
+					hook := func() {
+						for i := 0; i < n; i++ {
+							runtime.Gosched()
+						}
+					}
+					for _, typ := range []vs.OpType{vs.OpWriteWithXattrs, vs.OpWriteTombstoneWithXattrs, vs.OpWriteResurrectionWithXattrs} {
+						for nth := 1; nth <= vfC05MaxTries; nth++ {
+							rules = append(rules, vs.Rule{Type: typ, Label: o.label(), Nth: nth, Fault: vs.Fault{Hook: hook}})
+						}
+					}
+				}
+			}
+			w.Arm(&vs.Plan{Rules: rules})
 		}
 		start := make(chan struct{})
 		var wg sync.WaitGroup
@@ -877,7 +974,63 @@ func TestVerif_C05_Concurrent(t *testing.T) {
 		if !wrap {
 			nontrivial = len(world.rejs) > 0
 		}
+		if world.avoid {
+			rec.Excluded(vfC05SigResurrect + " (deleting writes serialised against other writes)")
+		}
 		rec.Case(render, nontrivial, classes...)
 	})
 }
 
+// TestVerif_C05_Known: deterministic minimal reproduction of the listed finding (regression only; the
+// generated families decide). c0 creates and deletes the document; c0 then re-creates it (a resurrection
+// write) and, inside that write's read -> write window, c1 deletes the tombstone again (acknowledged).
+func TestVerif_C05_Known(t *testing.T) {
+	rec := kit.New("C05", "Known")
+	defer rec.Flush()
+	defer SuspendSequenceBatching()()
+	for _, allow := range []bool{false, true} {
+		env, w, err := vfC05Open(t, allow, true)
+		if err != nil {
+			rec.Inconclusive()
+			kit.InconclusiveLine("C05", "cannot open database: %v", err)
+			return
+		}
+		world := vfC05NewWorld(env, w, allow, 2, 1)
+		script := []*vfC05Op{
+			{id: 1, client: 0, doc: 0, kind: "put"},
+			{id: 2, client: 0, doc: 0, kind: "del"},
+			{id: 3, client: 1, doc: 0, kind: "read"},
+			{id: 4, client: 0, doc: 0, kind: "put", instrumented: true, failCas: []bool{false},
+				hooks: [][]*vfC05Op{{{id: 5, client: 1, doc: 0, kind: "del"}}}},
+		}
+		var parts []string
+		for _, o := range script {
+			parts = append(parts, o.render())
+			var rules []vs.Rule
+			world.plan(o, 0, &rules)
+			w.Arm(&vs.Plan{Rules: rules})
+			world.exec(o, 0)
+			w.Disarm()
+		}
+		render := fmt.Sprintf("allowConflicts=%v: %s", allow, strings.Join(parts, "; "))
+		ferr := world.finalCheck(true)
+		env.Close()
+		rec.Class("reproductions", 1)
+		switch {
+		case ferr != nil && vfIsInconclusive(ferr):
+			rec.Inconclusive()
+			kit.InconclusiveLine("C05", "reproduction could not be decided: %v", ferr)
+		case ferr != nil && kit.Known("C05", vfC05SigResurrect):
+			rec.Class("reproductions.still-failing", 1)
+			if allow {
+				continue // same shape, reported once
+			}
+			kit.KnownFinding("C05", vfC05SigResurrect, fmt.Sprintf("%s [reproduction: %s; execution: %s] -> %v", kit.KnownWhat("C05", vfC05SigResurrect), render, world.history(), ferr))
+		case ferr != nil:
+			kit.Note("C05", "reproduction of %s fails but the signature is not listed as open; the generated families decide: %v", vfC05SigResurrect, ferr)
+		default:
+			kit.Note("C05", "reproduction of %s holds now (finding repaired?): %s", vfC05SigResurrect, render)
+		}
+	}
+	rec.Sample("deterministic reproduction of the listed known finding (regression only, decides nothing)")
+}
